@@ -119,6 +119,20 @@ def _net_mutators(directed):
         o.set_edge_list(e, n_nodes=n)
         return {**m, "A": A, "attrs": {}}
 
+    def edge_list_span(o, m, r):
+        # without n_nodes the node count is documented to follow from the
+        # largest index in the list: fewer or more nodes than before
+        n = int(r.integers(3, len(m["A"]) + 3))
+        A = G.gnp(r, n, 0.5, directed)
+        A[0, n - 1] = 1                    # the last node appears in the list
+        if not directed:
+            A[n - 1, 0] = 1
+        e = np.argwhere(A if directed else np.triu(A))
+        w = G.pos_weights(r, n)
+        o.set_edge_list(e)
+        o.node_weights = w
+        return {**m, "A": A, "w": w, "attrs": {}}
+
     def node_w(o, m, r):
         w = G.pos_weights(r, len(m["A"]), "loguni")
         o.node_weights = w
@@ -149,7 +163,9 @@ def _net_mutators(directed):
                 "attrs": {}}
     return [("adjacency=", adj_same), ("adjacency=sparse", adj_sparse),
             ("adjacency=newN+node_weights=", adj_newN),
-            ("set_edge_list", edge_list), ("node_weights=", node_w),
+            ("set_edge_list", edge_list),
+            ("set_edge_list(no n_nodes)+node_weights=", edge_list_span),
+            ("node_weights=", node_w),
             ("node_weights=None", node_w_none),
             ("set_link_attribute", set_attr),
             ("del_link_attribute", del_attr), ("randomly_rewire", rewire)]
@@ -719,7 +735,23 @@ class ResNetworkS(Subject):
             R = self._res(r, m["A"])
             o.update_resistances(R.copy())
             return {**m, "R": R}
-        return [("update_resistances", upd)]
+
+        def relink(o, m, r):
+            # another link set on the same nodes (links removed and added),
+            # then the resistances that belong to it
+            n = len(m["A"])
+            for _ in range(20):
+                A2 = G.random_connected(r, n, n)
+                if len(A2) == n and not np.array_equal(A2, m["A"]):
+                    break
+            else:
+                raise Skip()
+            R = self._res(r, A2)
+            o.adjacency = A2.copy()
+            o.update_resistances(R.copy())
+            return {**m, "A": A2, "R": R}
+        return [("update_resistances", upd),
+                ("adjacency+update_resistances", relink)]
 
     def extra_queries(self, obj, m):
         return [
